@@ -593,3 +593,82 @@ func checkNoRegexpOverwrite(c *Ctx, r *Report, rule string) {
 		r.OK(rule, "compiled patterns", "-", "patterns are replaced by assigning a new pointer, never overwritten in place")
 	}
 }
+
+// ---- C16: a transport's Close is an orderly close -----------------------------------------------------------------
+
+func checkNoAbortiveClose(c *Ctx, r *Report, rule string) {
+	bad := 0
+	for _, fn := range c.LibFns {
+		if fn.Pkg == nil || fn.Pkg.Pkg.Path() != modPath+"/transport" {
+			continue
+		}
+		for _, ci := range callInstrs(fn) {
+			o := CalleeObj(ci)
+			if o == nil || o.Pkg() == nil || o.Pkg().Path() != "net" || o.Name() != "SetLinger" {
+				continue
+			}
+			bad++
+			r.Bad(rule, fmt.Sprintf("%s sets SO_LINGER#%d", shortFn(fn), bad), c.Pos(ci.Pos()), "the transport changes the linger behaviour of its connection: with a zero linger Close is an abortive close -- bytes Write accepted but the kernel has not sent yet are discarded and the peer sees a reset instead of the end of the stream")
+		}
+	}
+	if bad == 0 {
+		r.OK(rule, "orderly close", "-", "no transport touches SO_LINGER")
+	}
+}
+
+// ---- C19: platform definitions are decoded by the YAML decoder only ------------------------------------------------
+
+func checkDefinitionDecoder(c *Ctx, r *Report, rule string) {
+	n, bad := 0, 0
+	for _, fn := range c.LibFns {
+		if fn.Pkg == nil || fn.Pkg.Pkg.Path() != modPath+"/platform" {
+			continue
+		}
+		for _, ci := range callInstrs(fn) {
+			o := CalleeObj(ci)
+			if o == nil || o.Pkg() == nil || (o.Name() != "Unmarshal" && o.Name() != "Decode" && o.Name() != "UnmarshalStrict") {
+				continue
+			}
+			n++
+			construct := fmt.Sprintf("%s decodes with %s.%s", shortFn(fn), o.Pkg().Name(), o.Name())
+			if strings.HasPrefix(o.Pkg().Path(), "gopkg.in/yaml.v3") {
+				r.OK(rule, construct, c.Pos(ci.Pos()), "yaml.v3: scalars arrive as int / float64 / string / bool, sequences as []interface{}")
+			} else {
+				bad++
+				r.Bad(rule, construct, c.Pos(ci.Pos()), "a platform definition is decoded by something other than yaml.v3: the option table asserts the Go types yaml.v3 produces (int for whole numbers); another decoder delivers other types (encoding/json: float64), so a definition with a documented value makes the constructor panic")
+			}
+		}
+	}
+	if n == 0 {
+		r.Unk(rule, "definition decoder", "-", "the platform package never decodes a definition")
+	}
+}
+
+// ---- C08: only the NETCONF reader consumes the channel's queue ------------------------------------------------------
+
+func checkRPCDoesNotConsume(c *Ctx, r *Report, rule string) {
+	sendRPC := c.LookupFunc("driver/netconf", "Driver", "sendRPC")
+	if sendRPC == nil {
+		r.Anchor(rule, "(*netconf.Driver).sendRPC")
+		return
+	}
+	scope := c.reachFns([]*ssa.Function{sendRPC}, func(_ ssa.CallInstruction, callee *ssa.Function) bool {
+		return callee.Pkg == sendRPC.Pkg
+	}, false)
+	construct := "sendRPC leaves the queue to the reader"
+	for fn := range scope {
+		for _, g := range append([]*ssa.Function{fn}, AnonFuncsDeep(fn)...) {
+			for _, ci := range callInstrs(g) {
+				o := CalleeObj(ci)
+				if o == nil || o.Pkg() == nil || o.Pkg().Path() != modPath+"/channel" || recvTypeName(o) != "Channel" {
+					continue
+				}
+				if strings.HasPrefix(o.Name(), "Read") || o.Name() == "GetPrompt" || strings.HasPrefix(o.Name(), "Send") {
+					r.Bad(rule, construct, c.Pos(ci.Pos()), fmt.Sprintf("%s calls Channel.%s: an rpc takes output out of the channel's queue behind the back of the NETCONF reader -- the tail of a reply whose head the reader already holds is dropped, and the next reply is appended to the fragment and filed under the wrong message-id", shortFn(g), o.Name()))
+					return
+				}
+			}
+		}
+	}
+	r.OK(rule, construct, c.Pos(sendRPC.Pos()), fmt.Sprintf("%d function(s) below sendRPC: none reads from the channel", len(scope)))
+}
